@@ -31,6 +31,7 @@ GENERATORS = {
     "RewriterTable_gen": "translator.gen_rewriter",
     "TryRoute_gen": "translator.gen_tryroute",
     "MultiFactShape_gen": "translator.gen_mfshape",
+    "Routed_gen": "translator.gen_routed",
 }
 
 
